@@ -17,6 +17,7 @@ CHOOSERS = [
     "avoid_depot",
     "nearest",
     "farthest",
+    "least_slack",
 ]
 
 
@@ -53,6 +54,22 @@ def _scores(name: str, mask: torch.Tensor, td, gen: torch.Generator) -> torch.Te
                 s = s + 1e-6 * torch.rand(B, N, generator=gen)
         except Exception:
             pass
+    elif name == "least_slack":
+        # time-window problems: go to the admitted customer whose window closes soonest after the arrival the env's own
+        # clock predicts (long no-wait chains that end right at a deadline); the depot only when nothing else is offered
+        s = torch.rand(B, N, generator=gen)
+        try:
+            tw, locs = td["time_windows"], td["locs"]
+            if tw.dim() == 3 and tw.shape[1] == N and locs.shape[1] == N and "current_time" in td.keys():
+                cur = td["current_node"].reshape(B, -1)[:, 0].long()
+                d = (locs - locs[torch.arange(B), cur][:, None, :]).norm(dim=-1)
+                sp = td["speed"].reshape(B, -1)[:, :1] if "speed" in td.keys() else 1.0
+                slack = tw[..., 1] - (td["current_time"].reshape(B, -1)[:, :1] + d / sp)
+                slack = torch.where(torch.isfinite(slack), slack, torch.full_like(slack, 1e6))
+                s = -slack + 1e-6 * torch.rand(B, N, generator=gen)
+        except Exception:
+            pass
+        s[:, 0] = -1e9
     else:
         raise ValueError(name)
     return s
